@@ -200,7 +200,24 @@ func run(alpha []opDef, keys []string, c Case) (vs []viol, outcome string, nontr
 	var ents []dbsm.Entry
 	var wantRes []string
 	var lastVer uint64
+	// point-in-time snapshots: one is PREPARED before every entry (and after the last) and only
+	// SAVED once the whole sequence has been applied - the image must be the store at its prepare
+	// point (LFSM is a concurrent state machine: dragonboat applies further entries in between)
+	type prepared struct {
+		ctx   interface{}
+		state string
+	}
+	var preps []prepared
+	prepare := func() {
+		ctx, err := f.PrepareSnapshot()
+		if err != nil {
+			vs = append(vs, viol{"snapshot-error", err.Error()})
+			return
+		}
+		preps = append(preps, prepared{ctx, lookups(f, keys) + listings(f)})
+	}
 	for i, oi := range c.Seq {
+		prepare()
 		o := alpha[oi]
 		ver := m.resolve(o)
 		e := entry(index(i), o, ver)
@@ -236,6 +253,7 @@ func run(alpha []opDef, keys []string, c Case) (vs []viol, outcome string, nontr
 		}
 		outcome += got + ";"
 	}
+	prepare()
 	gl, wl := lookups(f, keys), m.lookups(keys)
 	if gl != wl {
 		vs = append(vs, viol{"lookup-mismatch", fmt.Sprintf("got  %s\nwant %s", gl, wl)})
@@ -276,6 +294,42 @@ func run(alpha []opDef, keys []string, c Case) (vs []viol, outcome string, nontr
 				if out[0].Result.Value != kv.ResultCodeVersionMismatch {
 					vs = append(vs, viol{"restored-store-accepts-stale-version", k})
 				}
+			}
+		}
+	}
+	// the snapshots prepared on the way, saved now
+	for p, pr := range preps {
+		var buf bytes.Buffer
+		if err := f.SaveSnapshot(pr.ctx, &buf, nil, nil); err != nil {
+			vs = append(vs, viol{"snapshot-error", err.Error()})
+			continue
+		}
+		rec := newLFSM()
+		if err := rec.RecoverFromSnapshot(&buf, nil, nil); err != nil {
+			vs = append(vs, viol{"recover-error", err.Error()})
+			continue
+		}
+		if got := lookups(rec, keys) + listings(rec); got != pr.state {
+			vs = append(vs, viol{"snapshot-not-the-store-at-its-prepare-point", fmt.Sprintf("prepared before entry %d of %d, saved after the last: restored %s\nstore at prepare %s", p, len(ents), got, pr.state)})
+			continue
+		}
+		// a replica recovering from it and replaying the tail ends where everybody else is
+		if p < len(ents) {
+			var tail []dbsm.Entry
+			for j := p; j < len(ents); j++ {
+				tail = append(tail, dbsm.Entry{Index: ents[j].Index, Cmd: ents[j].Cmd})
+			}
+			out, err := rec.Update(tail)
+			if err != nil {
+				vs = append(vs, viol{"replica-update-error", err.Error()})
+				continue
+			}
+			var got []string
+			for _, o := range out {
+				got = append(got, fmt.Sprintf("%d %s", o.Result.Value, o.Result.Data))
+			}
+			if !reflect.DeepEqual(got, wantRes[p:]) || lookups(rec, keys) != gl {
+				vs = append(vs, viol{"replica-recovered-from-snapshot-differs-after-replaying-the-tail", fmt.Sprintf("snapshot before entry %d: results %v want %v", p, got, wantRes[p:])})
 			}
 		}
 	}
@@ -325,7 +379,7 @@ func Run(r *evid.Run) {
 	if r.Thorough() {
 		depth = 4
 	}
-	r.Rule(fmt.Sprintf("deep-narrow: every sequence of length 0..%d over %d updates ({set,delete} x 3 keys x versions {0,current,previous,current+1} x 2 values); shallow-wide: every sequence of length 0..2 over %d updates (6 keys incl. non-ASCII, far-future version, empty value); entries built exactly as RaftStore marshals them and applied to the real kv.LFSM with non-dense indices. After each sequence: per-update result codes and payloads, get/exists on all keys and the callers' glob patterns vs a plain map model; list/listdir vs a fresh store loaded with the model's pairs; snapshot -> recover into a non-empty store; a second replica under every batching. Non-trivial: at least one successful set; distinct = distinct (results, lookups) renderings", depth, len(narrow), len(wide)))
+	r.Rule(fmt.Sprintf("deep-narrow: every sequence of length 0..%d over %d updates ({set,delete} x 3 keys x versions {0,current,previous,current+1} x 2 values); shallow-wide: every sequence of length 0..2 over %d updates (6 keys incl. non-ASCII, far-future version, empty value); entries built exactly as RaftStore marshals them and applied to the real kv.LFSM with non-dense indices. After each sequence: per-update result codes and payloads, get/exists on all keys and the callers' glob patterns vs a plain map model; list/listdir vs a fresh store loaded with the model's pairs; snapshot -> recover into a non-empty store; a snapshot PREPARED before every entry and saved only after the last must restore to the store at its prepare point, and a replica recovered from it that replays the tail must reproduce the tail's results and the final store; a second replica under every batching. Non-trivial: at least one successful set; distinct = distinct (results, lookups) renderings", depth, len(narrow), len(wide)))
 	total := par.SeqCount(len(narrow), depth)
 	done := par.For(total, r.Expired, func(i int64) {
 		c := Case{Seq: par.SeqAt(len(narrow), depth, i)}
